@@ -51,7 +51,12 @@ NextCase ==
   THEN ScalarCase(Pick(Archs), Pick(ScalarOps), C32[Pick(1..Len(C32))], C32[Pick(1..Len(C32))], Pick({0, 1}))
   ELSE VectorCase(Pick(Archs), Pick(VectorOps), Pick(1..Len(C32)), Pick(1..Len(C32)), Pick(Execs), Pick(Execs))
 
+NextCaseV == VectorCase(Pick(Archs), Pick(VectorOps), Pick(1..Len(C32)), Pick(1..Len(C32)), Pick(Execs), Pick(Execs))
+
 SInit == act = [a |-> "Init"] /\ a = 1 /\ b = 1 /\ ci = 0
 SNext == act' = NextCase /\ UNCHANGED vars
 SSpec == SInit /\ [][SNext]_<<act, vars>>
+\* vector cases only (C06: partial EXEC masks)
+SNextV == act' = NextCaseV /\ UNCHANGED vars
+SSpecV == SInit /\ [][SNextV]_<<act, vars>>
 =============================================================================
